@@ -8,6 +8,26 @@ props = [json.loads(l) for l in open(os.path.join(V, 'properties.jsonl'))]
 
 # property -> (technique, level text, level note, design ref) ; absent => not yet claimed
 CLAIMS = {
+    'C02': ('Lean 4 theorems over the executable model of numeric.diagonalize / PulseSequence.t, tau, propagator_at_arb_t: spectral form = matrix exponential under the eigh contract, cumulative propagators = time-ordered product, unitarity, times = cumulative sums (also for appended / tiled durations), arbitrary-time propagator incl. both-sided edge behaviour; regenerated contractions; correspondence',
+            'Machine-checked proof for every dimension, segment count and duration that, given an eigendecomposition satisfying the eigh contract, the modelled propagators are exp(-i H dt) products, unitary, start at 1, end in the total propagator, that times/tau are cumulative sums (additive under concatenation, G-fold under tiling) and that propagator_at_arb_t selects the right segment and returns exp(-i H_g (t - t_g)) Q_g with left and right limits at every edge; the model runs on the package\'s own eigh output and is compared with the package at every edge, inside segments and beyond tau; the search checks the eigh contract residuals and compares with scipy expm.',
+            'LAPACK eigh is an oracle (contract measured, not proved); floating point not modelled; times of pulses produced by extend/remap are covered by search only.',
+            'DESIGN.md §5 C02'),
+    'C10': ('Lean 4 theorems: every branch of the second-order kernel equals the nested integral for all real frequencies and splittings (exact arithmetic), limit/bound between branches, integration-by-parts identity, assembly = documented sum, F2 + F2^dagger = F1 end to end for the model; source pins; bit-pattern correspondence; known finding F9 (floating-point cancellation near resonances)',
+            'Machine-checked proof that the modelled _second_order_integral equals the documented nested integral in all three cases for every real input, that the modelled assembly of calculate_second_order_filter_function computes the documented segment sum and satisfies F2_ab,kl + conj F2_ba,lk = conj(B_ak) B_bl; the model is tied to numeric.py by pins of the function bodies / masks, the regenerated contractions and a bit-pattern correspondence run (bit-identical kernel); the search compares the package with an independent, cancellation-free evaluation of the nested integral, checks F2+F2^dagger=F1, cached vs uncached intermediates and frequency shifts.',
+            'Exact-arithmetic theorems cannot see the catastrophic cancellation close to (not on) resonances: that genuine defect is found by the search and listed as open known finding F9.',
+            'DESIGN.md §5 C10'),
+    'C12': ('Lean 4 theorems on the control-matrix model: invariance under per-segment energy offsets (with arbitrary unit phases on the propagators), covariance under change of basis B\' = B O^T and invariance of the fidelity filter function for isometric O, invariance under conjugation of all operators by one unitary; search on the implementation',
+            'Machine-checked proof, for all dimensions / segments / frequencies and both branches of the small-denominator guard, that the modelled control matrix is unchanged by energy offsets and frame changes and transforms linearly under a change of basis so that the fidelity filter function is basis independent; search compares pairs of bases (GGM, Pauli, rotated, completed-from-partial, non-traceless), offsets up to 1e6 and random frames on filter functions, infidelities, error transfer matrices and process fidelity.',
+            'Independence of the infidelity / error transfer matrix of the basis rests on C08/C09 theorems plus search; expm is an oracle.',
+            'DESIGN.md §5 C12'),
+    'C13': ('Lean 4 theorems on the control-matrix model: splitting identity of the segment integral and of whole segments (exact in the closed-form branch, explicit 2e-7*duration bound otherwise), zero-duration segments contribute nothing, operator permutation = row permutation, time-unit covariance for the dimensionless guard read from source (and its failure for an absolute guard), linearity; search on the implementation',
+            'Machine-checked proof for all pulses that re-segmentation, zero-length segments and operator order leave the modelled control matrix unchanged (up to the proved truncation bound), that rescaling the time unit by any lambda != 0 multiplies it by lambda and the filter function by lambda^2 for the guard shape the translator reads from numeric.py on every run, and that it is linear in noise operators and sensitivities; metamorphic search on the real package with lambda = 1e-9..1e9.',
+            'Floating point not modelled; infidelity-level statements rest on C08.',
+            'DESIGN.md §5 C13'),
+    'C16': ('Lean 4 theorems (core Lean, index arithmetic): admissible position range, insert / merge / transpose produce exactly the numpy.insert / permutation order for all chains and positions, dims bookkeeping harmless, mixed-radix bijection, Pauli index maps for all n; exhaustive correspondence and product comparison on the implementation',
+            'Machine-checked proof for all chain lengths, ranks, positions and permutations that the modelled tensor_insert / tensor_merge / tensor_transpose yield the documented factor order or the documented exception, and that equivalent/remap Pauli index maps are the row-major index maps they should be; the model interprets the subscripts exactly as util.py builds them and is compared with the real functions (product of the predicted factor order vs actual result, exception classes) over an exhaustive enumeration of small chains with heterogeneous dimensions, plus an independent numpy.insert oracle.',
+            'numpy einsum/reshape semantics are trusted; chains beyond 52 subscript letters are outside the model.',
+            'DESIGN.md §5 C16'),
     'C04': ('Lean 4 theorems (both branches of the periodic control matrix equal the finite geometric series for every G>=1, every frequency, every tolerance; equality with the repetition sum) over the executable model + source pin of calculate_control_matrix_periodic + correspondence',
             'Machine-checked proof that the solve branch (under the contract of linalg.solve and det != 0) and the explicit-sum fallback of calculate_control_matrix_periodic both equal sum_{g<G} T^g, and that B times that sum is the repetition sum formed by concatenating G copies; the model is tied to numeric.py by a translator pin of the function body, the regenerated contraction of calculate_control_matrix_from_atomic and a correspondence run at singular and near-singular frequencies; failing-input search compares concatenate_periodic with G-fold concatenation and with the tiled pulse from scratch.',
             'linalg.solve/det are oracles with stated contracts; floating-point conditioning near singular frequencies is measured (1e-6), not proved; equality of the repetition sum with the from-scratch control matrix of the tiled pulse rests on C03/C15 (liouville_transfer, liou_mul).',
